@@ -980,6 +980,8 @@ message Other { string name = 1; }
 		"plain-then-flatten-mutual":       "message A { B b = 1; B b2 = 2 [(j5.ext.v1.field).message.flatten = true]; }\nmessage B { A a = 1 [(j5.ext.v1.field).message.flatten = true]; string x = 2; }",
 		"plain-then-flatten-nested":       "message Outer { message A { B b = 1; B b2 = 2 [(j5.ext.v1.field).object.flatten = true]; } message B { A a = 1 [(j5.ext.v1.field).object.flatten = true]; string x = 2; } A a = 1; }",
 		"self-flatten-nested":             "message Outer { message Node { Node next = 1 [(j5.ext.v1.field).message.flatten = true]; string x = 2; } Node node = 1; }",
+		"flatten-twice-through-cycle":     "message A { B b1 = 1 [(j5.ext.v1.field).message.flatten = true]; B b2 = 2 [(j5.ext.v1.field).message.flatten = true]; }\nmessage B { string name = 1; A back = 2; }",
+		"flatten-collision-through-cycle": "message A { B b = 1 [(j5.ext.v1.field).object.flatten = true]; string name = 2; }\nmessage B { string name = 1; oneof pick { A back = 2; string other = 3; } }",
 		"deep-nesting":                    "message A { message B { message C { message D { string s = 1; } D d = 1; } C c = 1; } B b = 1; }",
 	}
 	for _, name := range rt.SortedKeys(recShapes) {
